@@ -435,6 +435,10 @@ pub struct DropCase {
     /// collected: the tree is built on a recycled slot
     #[serde(default)]
     pub h_recycled: bool,
+    /// 1: `left` already holds the very bytes the tree's root brings (a retried merge);
+    /// 2: the first extra of the right graph has id 0 (the left graph has a vertex 0 too)
+    #[serde(default)]
+    pub twist: u8,
     /// node of h used as `right` (0 = the real root)
     pub right_node: usize,
 }
@@ -452,6 +456,14 @@ pub fn check_drop(acc: &mut Acc, c: &DropCase) {
     }
     // the right graph: the tree on ids 1.., extras on the ids after it
     let h = c.h_shape.htree(&c.h_data);
+    if c.twist == 1 {
+        match h.data[c.right_node] {
+            Some(d) => {
+                let _ = guarded(|| g.put(gids[c.left_node], &dat(d)));
+            }
+            None => return, // same as the variant without the twist
+        }
+    }
     let ids: Vec<usize> = (1..=h.size()).collect();
     let mut hg: Sodg<N> = Sodg::empty(64);
     if c.h_recycled {
@@ -465,7 +477,13 @@ pub fn check_drop(acc: &mut Acc, c: &DropCase) {
     crate::real::build_tree_into(&mut hg, &h, &ids);
     let mut next = h.size() + 1;
     let mut present: BTreeSet<usize> = ids.iter().copied().collect();
+    let mut first_extra = c.twist == 2;
     for e in &c.extras {
+        // twist 2: the first extra vertex takes id 0
+        let save = next;
+        if first_extra && *e != 2 {
+            next = 0;
+        }
         match e {
             0 => {
                 hg.add(next);
@@ -494,6 +512,13 @@ pub fn check_drop(acc: &mut Acc, c: &DropCase) {
                 next += 2;
             }
         }
+        if first_extra && *e != 2 {
+            next = save;
+            first_extra = false;
+        }
+    }
+    if c.twist == 2 && (first_extra || c.extras.is_empty()) {
+        return; // no single-vertex extra to put on id 0: same as the variant without the twist
     }
     // reference: what is reachable from `right`
     let right = ids[c.right_node];
@@ -573,8 +598,9 @@ pub fn run_c12(tier: &str) -> Outcome {
     // the case space is a product, decoded from the index (never materialised)
     let lefts: Vec<(usize, usize)> = g_shapes.iter().enumerate().flat_map(|(gi, gs)| (0..gs.size()).map(move |l| (gi, l))).collect();
     let (nl, nh, ne) = (lefts.len(), h_trees.len(), extras.len());
-    let total = nl * nh * ne * hmax * 2;
+    let total = nl * nh * ne * hmax * 2 * 3;
     let case_at = |i: usize| -> Option<DropCase> {
+        let (twist, i) = ((i % 3) as u8, i / 3);
         let (h_recycled, i) = (i % 2 == 1, i / 2);
         let (right_node, i) = (i % hmax, i / hmax);
         let (ei, i) = (i % ne, i / ne);
@@ -584,7 +610,7 @@ pub fn run_c12(tier: &str) -> Outcome {
             return None;
         }
         let (gi, left_node) = lefts[li];
-        Some(DropCase { g_shape: g_shapes[gi].clone(), left_node, h_shape: hs.clone(), h_data: hd.clone(), extras: extras[ei].clone(), right_node, h_recycled })
+        Some(DropCase { g_shape: g_shapes[gi].clone(), left_node, h_shape: hs.clone(), h_data: hd.clone(), extras: extras[ei].clone(), right_node, h_recycled, twist })
     };
     let acc = super::par_cases_sliced(total, if quick { 1 } else { 8 }, |i, acc| {
         let Some(c) = case_at(i) else { return };
@@ -599,7 +625,7 @@ pub fn run_c12(tier: &str) -> Outcome {
             machinery.push(format!("vacuous run: situation '{k}' never occurred"));
         }
     }
-    let rule = format!("every right graph = labelled tree of <= {hmax} vertices (every data placement) + every combination of up to 3 extras out of {{isolated vertex, isolated vertex with data, isolated vertex whose data was read, detached 2-vertex subtree}}, the tree built on fresh slots and on a slot recycled from a collected vertex, `right` = every node of the tree (so also roots that are not the graph's root), every left tree of <= {gmax} vertices and every `left`. Oracle: Ok iff the reference says every present vertex of the right graph is reachable from `right`; otherwise Err whose text names exactly the unreachable present vertices. distinct_nontrivial = distinct (left, right graph, left, right) cases");
+    let rule = format!("every right graph = labelled tree of <= {hmax} vertices (every data placement) + every combination of up to 3 extras out of {{isolated vertex, isolated vertex with data, isolated vertex whose data was read, detached 2-vertex subtree}}, the tree built on fresh slots and on a slot recycled from a collected vertex, `left` empty or already holding the bytes the root brings (a retried merge), an extra vertex on id 0, `right` = every node of the tree (so also roots that are not the graph's root), every left tree of <= {gmax} vertices and every `left`. Oracle: Ok iff the reference says every present vertex of the right graph is reachable from `right`; otherwise Err whose text names exactly the unreachable present vertices. distinct_nontrivial = distinct (left, right graph, left, right) cases");
     super::outcome("C12", tier, "exploration", &rule, acc, true, json!({}), t0.elapsed().as_secs_f64(), vec!["the missed vertices are read from the ν<id> tokens after the word 'missed' in the error text; without such tokens the check only demands that every missed id occurs in the message".to_string()], machinery)
 }
 
